@@ -163,8 +163,9 @@ _RZW_RET = ["WrAct", "Dr_Zt", "Dr_Rz", "TAW_Zt", "TAW_Rz", "thRZ_Act", "thRZ_S",
 RZW_REQ = WF() + [
     "forall(j, 0, n, prof.dz[j] >= 0.01)",
     "forall(j, 0, n, prof.th_fc[j] - prof.th_wp[j] >= 0.01)",
-    "forall(j, 0, n, InitCond_th[j] >= 0)",
+    "forall(j, 0, n, InitCond_th[j] >= 0 and InitCond_th[j] <= prof.th_s[j])",
     "Crop_Zmin >= 0.02",
+    "Crop_Aer >= 1",
     "max(InitCond_Zroot, Crop_Zmin) + 0.005 <= prof.dzsum[n-1]",
     "Soil_zTop >= prof.dzsum[0] + 0.005 or (is_int(100 * Soil_zTop) and Soil_zTop >= prof.dzsum[0])",
 ]
@@ -177,7 +178,11 @@ contract(SOL + "root_zone_water.py", "root_zone_water",
              ("C03.rzw_wr_nonneg", "WrAct >= 0"),
              ("C13.rzw_taw_positive", "TAW_Rz > 0"),
              ("C13.rzw_depletion_le_taw", "Dr_Rz <= TAW_Rz and Dr_Zt <= TAW_Zt"),
-             ("C13.rzw_taw_top_nonneg", "TAW_Zt >= 0"),
+             ("C13.rzw_taw_top_positive", "TAW_Zt > 0"),
+             ("C04.rzw_aer_lt_sat", "thRZ_Aer < thRZ_S"),
+             ("C04.rzw_act_le_sat", "thRZ_Act <= thRZ_S"),
+             ("C04.rzw_act_nonneg", "thRZ_Act >= 0"),
+             ("C04.rzw_wp_lt_fc", "thRZ_WP < thRZ_FC"),
          ],
          loops={
              "L1": dict(invariant=[
@@ -185,8 +190,12 @@ contract(SOL + "root_zone_water.py", "root_zone_water",
                  ("taw_pos", "implies(ii == comp_sto + 1, WrFC - WrWP > 0)"),
                  ("comp", "0 <= comp_sto and comp_sto < n"),
                  ("rd", "rootdepth >= 0.015"),
+                 ("aer_lb", "implies(ii <= comp_sto, WrS - WrAer >= 0.09 * ii)"),
+                 ("aer_pos", "implies(ii == comp_sto + 1, WrS - WrAer > 0)"),
+                 ("act_le_s", "WrAct <= WrS and WrS >= 0"),
              ]),
-             "L2": dict(invariant=[]),
+             "L2": dict(invariant=[("taw_top", "WrFC_Zt - WrWP_Zt >= 0 and implies(ii >= 1, WrFC_Zt - WrWP_Zt > 0)"),
+                                   ("cs", "comp_sto >= 1 and comp_sto <= n and comp_sto == count_le(prof.dzsum, ztopdepth)")]),
          },
          assigns=[],
          props=("C03", "C12", "C13", "C16"))
@@ -200,7 +209,7 @@ contract(SOL + "irrigation.py", "irrigation",
                      NewCond_TimeStepCounter="Int", Crop=OBJ("Crop"), prof=OBJ("SoilProfile"), Soil_zTop="Real", growing_season="Bool",
                      Rain="Real", Runoff="Real"),
          ghost=dict(n="Int", n_steps="Int"),
-         requires=[r.replace("InitCond_th", "NewCond_th").replace("InitCond_Zroot", "NewCond_Zroot").replace("Crop_Zmin", "Crop.Zmin") for r in RZW_REQ] + [
+         requires=[r.replace("InitCond_th", "NewCond_th").replace("InitCond_Zroot", "NewCond_Zroot").replace("Crop_Zmin", "Crop.Zmin").replace("Crop_Aer", "Crop.Aer") for r in RZW_REQ] + [
              "0 <= IrrMngt_IrrMethod and IrrMngt_IrrMethod <= 5",
              "0 <= IrrMngt_AppEff and IrrMngt_AppEff <= 100",
              "IrrMngt_MaxIrr >= 0", "IrrMngt_MaxIrrSeason >= 0", "IrrMngt_depth >= 0",
@@ -479,3 +488,87 @@ contract(SOL + "soil_evaporation.py", "soil_evaporation",
          options=dict(merge_limit=None, reads_only_if={"FieldMngt_fMulch": "FieldMngt_Mulches", "FieldMngt_MulchPct": "FieldMngt_Mulches",
                                                        "IrrMngt_WetSurf": "Irr > 0 and IrrMngt_IrrMethod != 4"}),
          props=("C01", "C03", "C04", "C12", "C16", "C20"))
+
+# ----------------------------------------------------------------------------- transpiration
+declare_fields("CO2", default="Real")
+WF_LAYER = lambda p: [
+    "%s.Layer[0] >= 1" % p,
+    "forall(j, 1, n, %s.Layer[j] >= %s.Layer[j-1] and implies(%s.Layer[j] == %s.Layer[j-1], %s.th_wp[j] == %s.th_wp[j-1] and %s.th_fc[j] == %s.th_fc[j-1]))" % ((p,) * 8),
+]
+_TR_MASS = ("wsum(Soil_Profile.dz, NewCond.th, n) + TrAct + NewCond.surface_storage + TrAct0 == "
+            "old(wsum(Soil_Profile.dz, InitCond.th, n)) + old(InitCond.surface_storage)")
+_AGE = "max(InitCond.dap - InitCond.delayed_cds - Crop.MaxCanopyCD, {a})"
+contract(SOL + "transpiration.py", "transpiration",
+         params=dict(Soil_Profile=OBJ("SoilProfile"), Soil_nComp="Int", Soil_zTop="Real", Crop=OBJ("Crop"), IrrMngt_IrrMethod="Int",
+                     IrrMngt_NetIrrSMT="Real", InitCond=OBJ("InitialCondition"), et0="Real", CO2=OBJ("CO2"), growing_season="Bool", gdd="Real"),
+         ghost=GHOST_N,
+         requires=WF("Soil_Profile") + WF_LAYER("Soil_Profile") + [
+             "Soil_nComp == n",
+             WATER_INV("InitCond.th", "Soil_Profile"),
+             "forall(j, 0, n, Soil_Profile.dz[j] >= 0.01)", "forall(j, 0, n, Soil_Profile.th_fc[j] - Soil_Profile.th_wp[j] >= 0.01)",
+             "Crop.Zmin >= 0.02", "Crop.Aer >= 1", "Crop.Aer <= 100",
+             "max(InitCond.z_root, Crop.Zmin) + 0.005 <= Soil_Profile.dzsum[n-1]",
+             "Soil_zTop >= Soil_Profile.dzsum[0] + 0.005 or (is_int(100 * Soil_zTop) and Soil_zTop >= Soil_Profile.dzsum[0])",
+             "InitCond.surface_storage >= 0", "et0 >= 0",
+             "0 <= IrrMngt_NetIrrSMT and IrrMngt_NetIrrSMT <= 100", "0 <= IrrMngt_IrrMethod and IrrMngt_IrrMethod <= 5",
+             # crop validity (valid_crop; catalogue obligation) and crop state (canopy_inv, established by canopy_cover)
+             "Crop.Kcb >= 0", "Crop.fage >= 0", "Crop.a_Tr > 0",
+             "0 <= InitCond.ccx_w and InitCond.ccx_w <= 1", "0 <= InitCond.ccx_w_ns and InitCond.ccx_w_ns <= 1",
+             "Crop.Kcb - (" + _AGE.format(a="InitCond.age_days") + " - 5) * (Crop.fage / 100) * InitCond.ccx_w >= 0",
+             "Crop.Kcb - (" + _AGE.format(a="InitCond.age_days_ns") + " - 5) * (Crop.fage / 100) * InitCond.ccx_w_ns >= 0",
+             "CO2.ref_concentration < 550 and CO2.current_concentration - CO2.ref_concentration <= 20 * (550 - CO2.ref_concentration)",
+             "0 <= InitCond.canopy_cover_adj and InitCond.canopy_cover_adj <= 1", "0 <= InitCond.canopy_cover_adj_ns and InitCond.canopy_cover_adj_ns <= 1",
+             "InitCond.canopy_cover >= 0 and InitCond.canopy_cover_ns >= 0",
+             "Crop.TrColdStress == 0 or Crop.TrColdStress == 1", "Crop.GDD_lo < Crop.GDD_up",
+             "Crop.ETadj == 0 or Crop.ETadj == 1",
+             "Crop.LagAer >= 2", "InitCond.day_submerged >= 0",
+             "0 <= InitCond.aer_days and InitCond.aer_days <= Crop.LagAer",
+             "forall(j, 0, n, InitCond.aer_days_comp[j] >= 0)",
+             "forall(k, 0, 4, 0 <= Crop.p_up[k] and Crop.p_up[k] <= 1)", "forall(k, 0, 4, 0 <= Crop.p_lo[k] and Crop.p_lo[k] <= 1)",
+             "forall(k, 0, 3, Crop.fshape_w[k] != 0)", "Crop.p_up[1] < Crop.p_lo[1]",
+             "Crop.SxTop >= 0 and Crop.SxBot >= 0 and InitCond.r_cor >= 0",
+         ],
+         returns=[("TrAct", "Real"), ("TrPot_NS", "Real"), ("TrPot0", "Real"), ("NewCond", ("Param", "InitCond")), ("IrrNet", "Real")],
+         ensures=[
+             ("C04.transpiration_pot_nonneg", "TrPot0 >= 0 and TrPot_NS >= 0"),
+             ("C04.transpiration_act_range", "0 <= TrAct and TrAct <= TrPot0"),
+             ("C04.transpiration_zero_out_of_season", "implies(not growing_season, TrAct == 0 and TrPot0 == 0 and TrPot_NS == 0 and IrrNet == 0)"),
+             ("C01.transpiration_mass", "wsum(Soil_Profile.dz, NewCond.th, n) + NewCond.surface_storage + TrAct == "
+                                        "old(wsum(Soil_Profile.dz, InitCond.th, n)) + old(InitCond.surface_storage) + IrrNet"),
+             ("C03.transpiration_bounds", WATER_INV("NewCond.th", "Soil_Profile")),
+             ("C03.transpiration_ponding", "0 <= NewCond.surface_storage and NewCond.surface_storage <= old(InitCond.surface_storage)"),
+             ("C13.transpiration_net_only_method4", "implies(IrrMngt_IrrMethod != 4, IrrNet == 0)"),
+             ("C06.transpiration_net_cum", "NewCond.irr_net_cum == ite(growing_season and IrrMngt_IrrMethod == 4, old(InitCond.irr_net_cum) + IrrNet, 0)"),
+             ("C06.transpiration_tpot_state", "NewCond.t_pot == TrPot0"),
+             ("C12.transpiration_same_object", "same(NewCond, InitCond) and same(NewCond.th, old(InitCond.th))"),
+         ],
+         loops={
+             "L1": dict(invariant=[("adc", "forall(j, 0, n, NewCond.aer_days_comp[j] >= 0)")]),
+             "L2": dict(invariant=[("rf", "forall(j, 0, n, 0 <= RootFact[j] and RootFact[j] <= 1)"),
+                                   ("cs", "1 <= comp_sto and comp_sto <= n and comp_sto <= count_lt(Soil_Profile.dzsum, rootdepth) + 1")]),
+             "L3": dict(invariant=[("sx", "forall(j, 0, n, SxComp[j] >= 0)")]),
+             "L4": dict(invariant=[("sx", "forall(j, 0, n, SxComp[j] >= 0)"), ("bot", "SxCompBot >= 0")]),
+             "L5": dict(invariant=[
+                 ("range", "-1 <= comp and comp <= comp_sto - 1 and 1 <= comp_sto and comp_sto <= n"),
+                 # the stress coefficient can be negative for an aeration lag above 3 days: then nothing is extracted at all
+                 ("budget", "ToExtract + TrAct == TrPot and TrAct >= 0 and (ToExtract >= 0 or TrAct == 0)"),
+                 ("mass", _TR_MASS),
+                 ("bounds", "forall(j, 0, n, Soil_Profile.th_dry[j] <= NewCond.th[j] and NewCond.th[j] <= old(InitCond.th[j]))"),
+                 ("adc", "forall(j, 0, n, NewCond.aer_days_comp[j] >= 0)"),
+                 ("rf", "forall(j, 0, n, 0 <= RootFact[j] and RootFact[j] <= 1 and SxComp[j] >= 0)"),
+             ], decreases="comp_sto - 1 - comp"),
+             "L6": dict(invariant=[
+                 ("mass", "wsum(Soil_Profile.dz, NewCond.th, n) + TrAct + NewCond.surface_storage + TrAct0 == "
+                          "old(wsum(Soil_Profile.dz, InitCond.th, n)) + old(InitCond.surface_storage) + IrrNet"),
+                 ("bounds", WATER_INV("NewCond.th", "Soil_Profile")),
+                 ("layer", "prelayer == ite(ii == 0, 0, Soil_Profile.Layer[ii-1])"),
+                 ("crit", "implies(ii >= 1, thCrit == Soil_Profile.th_wp[ii-1] + IrrMngt_NetIrrSMT / 100 * (Soil_Profile.th_fc[ii-1] - Soil_Profile.th_wp[ii-1]))"),
+                 ("rf", "forall(j, 0, n, 0 <= RootFact[j] and RootFact[j] <= 1)"),
+                 ("cs", "comp_sto <= n"),
+             ]),
+         },
+         assigns=["InitCond.th[*]", "InitCond.aer_days_comp[*]", "InitCond.age_days", "InitCond.age_days_ns", "InitCond.day_submerged",
+                  "InitCond.surface_storage", "InitCond.aer_days", "InitCond.depletion", "InitCond.taw", "InitCond.irr_net_cum",
+                  "InitCond.canopy_cover", "InitCond.tr_ratio", "InitCond.t_pot"],
+         options=dict(merge_limit=None),
+         props=("C01", "C03", "C04", "C06", "C12", "C13", "C16"))
